@@ -189,46 +189,91 @@ fn fields(s: &ObservableState) -> Vec<(String, char, String)> {
 }
 
 fn gen_case(rng: &mut Rng, idx: u64, _run: &Run) -> Vec<String> {
-    let nsrc = match rng.below(6) {
-        0 => 0,
-        1 => 20,
+    let _ = idx;
+    // a case is a SEQUENCE of 1-5 snapshots read back through one connection with one reused buffer; the number
+    // of sources goes up and down between snapshots (sources appear and are removed), so longer and shorter
+    // messages follow each other
+    let n = match rng.below(8) {
+        0 => 1,
+        _ => rng.usize(2, 5),
+    };
+    let cap = *rng.pick(&[1usize, 7, 8, 9, 100, 65536]);
+    let mut nsrc = match rng.below(4) {
+        0 => 20,
+        1 => 0,
         _ => rng.usize(1, 8),
     };
     let nsrv = rng.usize(0, 4);
-    let _ = idx;
-    vec![format!("state seed={} nsrc={} nsrv={} cap={}", rng.next_u64(), nsrc, nsrv, rng.pick(&[1usize, 7, 8, 9, 100, 65536]))]
+    (0..n)
+        .map(|_| {
+            let line = format!("state seed={} nsrc={} nsrv={} cap={}", rng.next_u64(), nsrc, nsrv, cap);
+            nsrc = match rng.below(5) {
+                0 => 0,
+                1 => nsrc / 2,
+                2 => nsrc.saturating_sub(1),
+                3 => (nsrc + rng.usize(1, 6)).min(20),
+                _ => rng.usize(0, 8),
+            };
+            line
+        })
+        .collect()
 }
 
 fn exec_case(ops: &[String], run: &mut Run) {
     let rt = tokio::runtime::Builder::new_current_thread().enable_all().build().unwrap();
+    // parse the whole case first: all its snapshots go through ONE pipe and are read with ONE reused buffer
+    let mut parsed: Vec<Option<(u64, usize, usize, usize)>> = vec![];
     for op in ops {
-        run.begin_op(op);
         let w: Vec<&str> = op.split_whitespace().collect();
         let p = |k: &str| kv(&w, k).and_then(|s| s.parse::<u64>().ok());
-        let (seed, nsrc, nsrv, cap) = match (w.first(), p("seed"), p("nsrc"), p("nsrv"), p("cap")) {
-            (Some(&"state"), Some(a), Some(b), Some(c), Some(d)) if b <= 64 && c <= 16 && d >= 1 => (a, b as usize, c as usize, d as usize),
-            _ => {
-                run.end_op("bad-op");
-                continue;
+        parsed.push(match (w.first(), p("seed"), p("nsrc"), p("nsrv"), p("cap")) {
+            (Some(&"state"), Some(a), Some(b), Some(c), Some(d)) if b <= 64 && c <= 16 && d >= 1 => Some((a, b as usize, c as usize, d as usize)),
+            _ => None,
+        });
+    }
+    let states: Vec<ObservableState> = parsed.iter().flatten().map(|(seed, nsrc, nsrv, _)| gen_state(*seed, *nsrc, *nsrv)).collect();
+    let cap = parsed.iter().flatten().map(|t| t.3).next().unwrap_or(64);
+    let mut results: std::collections::VecDeque<std::io::Result<ObservableState>> = rt.block_on(async {
+        let (mut a, b) = tokio::io::duplex(cap);
+        let n = states.len();
+        // the reading end is dropped when the reader returns, so a blocked writer fails instead of hanging
+        let reader = async move {
+            let mut b = b;
+            let mut buffer = Vec::new();
+            let mut out = std::collections::VecDeque::new();
+            for _ in 0..n {
+                let r = read_json::<ObservableState>(&mut b, &mut buffer).await;
+                // after a truncated stream nothing more can be read; a rejected payload leaves the stream in step
+                let stop = matches!(&r, Err(e) if e.kind() == std::io::ErrorKind::UnexpectedEof || e.to_string() == "message too large");
+                out.push_back(r);
+                if stop {
+                    break;
+                }
+            }
+            out
+        };
+        let writer = async {
+            for s in &states {
+                if write_json(&mut a, s).await.is_err() {
+                    break;
+                }
             }
         };
-        let state = gen_state(seed, nsrc, nsrv);
-        let back: std::io::Result<ObservableState> = rt.block_on(async {
-            let (mut a, b) = tokio::io::duplex(cap);
-            // the reading end is dropped when the reader returns, so a blocked writer fails instead of hanging
-            let reader = async move {
-                let mut b = b;
-                let mut buffer = Vec::new();
-                read_json::<ObservableState>(&mut b, &mut buffer).await
-            };
-            let (wr, rd) = tokio::join!(write_json(&mut a, &state), reader);
-            let v = rd?;
-            wr?;
-            Ok(v)
-        });
+        let (_, out) = tokio::join!(writer, reader);
+        out
+    });
+    let mut states = std::collections::VecDeque::from(states);
+    for (k, op) in ops.iter().enumerate() {
+        run.begin_op(op);
+        let Some((seed, _nsrc, _nsrv, _cap)) = parsed[k] else {
+            run.end_op("bad-op");
+            continue;
+        };
+        let state = states.pop_front().expect("one state per parsed op");
+        let back = results.pop_front().unwrap_or_else(|| Err(std::io::Error::other("not read: the connection failed on an earlier snapshot")));
         match back {
             Err(e) => {
-                run.oracle_fail("state_read_back", "", &format!("a published state could not be read back: {}", e));
+                run.oracle_fail("state_read_back", &format!("pos={}", k.min(4)), &format!("snapshot {} of {} in this connection could not be read back with the reused buffer: {}", k + 1, ops.len(), e));
                 run.end_op("err");
             }
             Ok(back) => {
@@ -271,7 +316,7 @@ fn entry() {
     match stream.as_str() {
         "c38_state" => common::drive(
             "c38_state",
-            "ObservableState (0/1-8/20 sources, 0-4 servers; u64/timestamps/counters at 0, 2^53+1, i64/u64 limits and random; finite f64 special and random bit patterns; durations raw 0, +-1, limits, 2^32 neighbours, random; strings with quotes, escapes, NUL, non-ASCII) through write_json -> duplex(cap 1..65536) -> read_json::<ObservableState>; field-wise comparison; distinct by seed",
+            "ObservableState (0/1-8/20 sources, 0-4 servers; u64/timestamps/counters at 0, 2^53+1, i64/u64 limits and random; finite f64 special and random bit patterns; durations raw 0, +-1, limits, 2^32 neighbours, random; strings with quotes, escapes, NUL, non-ASCII) ; each case is a sequence of 1-5 snapshots whose number of sources goes up and down, all written with write_json into one duplex pipe (cap 1..65536) and all read back with read_json::<ObservableState> into ONE reused buffer; field-wise comparison of every snapshot; distinct by seed",
             gen_case,
             exec_case,
         ),
